@@ -1122,6 +1122,37 @@ fn exec_c19_inner(sc: &GitScenario) -> Outcome {
                     out.violate("absent_after_delete", "out_delete_failed", format!("op {}: out delete --all failed: {}", i, o.err_str().trim()));
                 }
             }
+            GitOp::OutDeleteFaulty => {
+                let saved = e.w.knobs.clone();
+                e.w.knobs.push(("LD_PRELOAD".into(), crate::world::shim_path().to_string_lossy().into_owned()));
+                e.w.knobs.push(("FSFAULT_ROOT".into(), e.w.out_dir().to_string_lossy().into_owned()));
+                e.w.knobs.push(("FSFAULT_UNLINK_FAIL".into(), "tracking".into()));
+                let o = e.w.cli(&["out", "delete", "--all"]);
+                e.w.knobs = saved;
+                out.sub_evals += 1;
+                out.fault("removal_below_the_output_directory_fails", 1);
+                out.trace.push(format!("{} out delete --all with failing removals -> {:?}", i, o.code));
+                if o.code == Some(0) {
+                    // it says everything is gone: the following operations hold it to that
+                    e.cp = None;
+                    e.cp_doc = None;
+                    deleted_once = true;
+                } else {
+                    // a loud failure promises nothing about how far it got; whatever is left must be the old value
+                    let s = e.w.cli(&["checkpoint", "show"]);
+                    match (&e.cp_doc, s.code, s.json()) {
+                        (Some(want), Some(0), Some(d)) if d["checkpoint"] != *want => {
+                            out.violate("show_last_update", "changed_by_failed_out_delete", format!("op {}: after a failed out delete show returned {} but the last successful update returned {}", i, d["checkpoint"], want));
+                        }
+                        (Some(_), Some(0), Some(_)) => {}
+                        (None, Some(0), Some(d)) => out.violate("absent_after_delete", "show_succeeds", format!("op {}: there is no checkpoint but show returned {}", i, d)),
+                        _ => {
+                            e.cp = None;
+                            e.cp_doc = None;
+                        }
+                    }
+                }
+            }
             GitOp::Analyze { begin, end } => {
                 let mut a = vec!["analyze".to_string()];
                 if let Some(b) = begin {
@@ -1198,6 +1229,24 @@ impl Property for C19 {
         let mut sc = gen_c19(seed, idx, tier);
         amend_some(&mut sc.ops, seed, "C19-amend", idx);
         same_stat_some(&mut sc.ops, seed, "C19-samestat", idx);
+        {
+            // one history in twenty: 1500-2400 empty untracked files recorded as pending - a stored document far
+            // beyond 64 KiB that compresses extremely well (own generator over the finished list)
+            let mut brng = Rng::new(scenario_seed(seed, "C19-bulk-same", idx));
+            if brng.chance(1, 20) && !sc.dirs.is_empty() && !sc.ops.iter().any(|o| matches!(o, GitOp::Bulk { .. })) {
+                let at = brng.below(sc.ops.len() + 1);
+                let dir = sc.dirs[brng.below(sc.dirs.len())].clone();
+                sc.ops.insert(at, GitOp::CpShow);
+                sc.ops.insert(at, GitOp::CpUpdate { id: None, raw_id: None, pending: true });
+                sc.ops.insert(at, GitOp::Bulk { dir, n: 1500 + brng.below(900), tag: 20000 });
+            }
+            // one `out delete --all` in four meets removals that fail
+            for op in sc.ops.iter_mut() {
+                if matches!(op, GitOp::OutDelete) && brng.chance(1, 4) {
+                    *op = GitOp::OutDeleteFaulty;
+                }
+            }
+        }
         serde_json::to_value(sc).unwrap()
     }
     fn execute(&self, v: &Value) -> Outcome {
